@@ -94,12 +94,16 @@ func (e *Engine) tryReplay(o *Obligation, model string) *ReplayResult {
 	}
 	// the clause to evaluate (postconditions only)
 	clauseGo := ""
-	if o.Kind == "post" {
+	if o.Kind == "post" || o.Kind == "goal" {
 		con := e.P.CF.Contracts[o.Func]
 		if con != nil {
 			var ord int
-			fmt.Sscanf(strings.TrimPrefix(strings.SplitN(o.Name, "/post:", 2)[1], ""), "%d@", &ord)
-			for _, cl := range con.Ensures {
+			fmt.Sscanf(strings.SplitN(o.Name, "/"+o.Kind+":", 2)[1], "%d@", &ord)
+			list := con.Ensures
+			if o.Kind == "goal" {
+				list = con.Goals
+			}
+			for _, cl := range list {
 				if cl.Ord == ord {
 					clauseGo = cl.GoText
 				}
@@ -176,7 +180,7 @@ func (e *Engine) tryReplay(o *Obligation, model string) *ReplayResult {
 	}
 	confirmed := false
 	switch o.Kind {
-	case "post":
+	case "post", "goal":
 		confirmed = strings.Contains(txt, "REPLAY-CLAUSE-FALSE:")
 	case "index", "nil", "slice", "div0", "typeassert", "makeslice", "panic", "nilmap", "nilfunc":
 		confirmed = strings.Contains(txt, "REPLAY-PANIC:")
